@@ -7,7 +7,8 @@
    the code compute P, for all n, l, alpha, x (x = 0 included: 0^0 = 1 is fpow x 0 = 1). *)
 From Coq Require Import List Arith Reals.
 From Coquelicot Require Import Coquelicot.
-From GB Require Import Base.Field Base.FNum Model.Shell Model.Eval Proofs.EvalP Gauss.DerivBridge.
+From GB Require Import Base.Field Base.FNum Model.Shell Model.Overlap Model.Eval Proofs.EvalP
+  Gauss.DerivBridge.
 Local Open Scope nat_scope.
 
 (* general back-end: the Leibniz sum over Hermite polynomials with the code's zeroing rules,
@@ -103,6 +104,12 @@ Theorem C05_unknown_backend_rejected :
   evaluate_deriv_basis_model K basis pts o T OtherBackend = None.
 Proof. exact @unknown_backend_rejected. Qed.
 Print Assumptions C05_unknown_backend_rejected.
+
+(* the diagonal-only contraction normalisation used by the model is Overlap.norm_cont *)
+Theorem C05_norm_shortcut :
+  forall (F : Type) (K : Fops F) (s : shell F), norm_cont_diag K s = norm_cont K s.
+Proof. exact @norm_cont_diag_eq. Qed.
+Print Assumptions C05_norm_shortcut.
 
 (* analytic bridge over the reals (classical-reals axioms of the standard library) *)
 Theorem C05_first_rule :
